@@ -27,6 +27,7 @@ import Gojq.Proofs.PairsReplay
 import Gojq.Proofs.PairsEntries
 import Gojq.Proofs.PairsTie
 import Gojq.Proofs.PairsEval
+import Gojq.Proofs.PairsEvalStream
 namespace Gojq.C13
 open Gojq Gojq.Stream Gojq.Pairs
 
@@ -70,10 +71,64 @@ theorem tostream_is_shipped :
     (Tie.tieValues.all fun v => Tie.agrees (Tie.run 300 Tie.qTostream v) (some (.arr (streamSpec v)))) = true := by
   decide +kernel
 
-/-- `Stream.fromstreamSpec` IS the shipped `fromstream`: `[fromstream(.[])]` from the regenerated
-    AST equals it on the event lists `Tie.tieEvents` (events of every tie value, several documents in a
-    row, truncated, reversed and ill-formed lists — errors included). -/
-theorem fromstream_is_shipped :
+/-- the definition evaluated below IS the shipped one: the regenerated `FuncDef` of `fromstream`
+    is the `foreach` whose parts are named in Proofs/PairsEvalStream.lean (`:= rfl` against
+    Generated/BuiltinDefs.lean: an edit of builtin.jq breaks it) -/
+theorem fromstream_definition_is_shipped :
+    Generated.Builtins.go_fromstream_a01 = .mk "fromstream" ["f"] fromstreamBody :=
+  shipped_fromstream
+
+/-- **`Stream.fromstreamSpec` IS the shipped `fromstream`, on EVERY list of modelled events**
+    (`eventOK`: well-formed `[path, leaf]` / `[path]` events whose path elements are strings,
+    integers `0 ≤ i < 2^29` or elements every `setpath` rejects): `[fromstream(.[])]`, run by
+    `Spec.eval` from the regenerated definition with any fuel from 60 on, emits exactly the array of
+    the values `fromstreamSpec` emits — and is an error exactly when `fromstreamSpec` is. -/
+theorem fromstream_is_shipped (fuel : Nat) (hf : 60 ≤ fuel) (env : Spec.Env) (evs : List JV) (id : Spec.Ident)
+    (hev : evs.all eventOK = true) (h : Spec.lookupCall "fromstream" 1 env.bs = .none) :
+    Tie.Agrees (Spec.eval fuel Tie.cfgGo env Tie.qFromstreamIter { v := .arr evs, id := id })
+      (Tie.ofFOut (fromstreamSpec evs)) :=
+  eval_fromstream_iter fuel hf env evs id hev h
+
+/-- the evaluator's own `setpath` (`Spec.setpathV`, what `Spec.eval` runs for `setpath(p; x)`) against
+    C16's `Stream.setpath`, on modelled paths: the same value, and an error exactly when the fragment
+    has none -/
+theorem evaluator_setpath_is_stream_setpath (p : List JV) (x v : JV) (hp : p.all elemOK = true) :
+    match Stream.setpath p x v with
+    | some w => Spec.setpathV v p x = .ok w
+    | none => ∃ e, Spec.setpathV v p x = .error e := by
+  have h := setpathV_stream p x v hp
+  cases hs : Stream.setpath p x v with
+  | some w => rw [hs] at h; exact h
+  | none => rw [hs] at h; obtain ⟨e, he, _⟩ := h; exact ⟨e, he⟩
+
+/-- the `tostream` events of a value whose arrays have at most 2^29 elements are modelled events -/
+theorem tostream_events_modelled (v : JV) (hs : Rebuildable v) : (streamSpec v).all eventOK = true :=
+  streamSpec_ok v hs
+
+/-- **`fromstream` AS SHIPPED rebuilds the value from its `tostream` events**: the program
+    `[fromstream(.[])]`, run by `Spec.eval` with the builtins as shipped on the event list
+    `streamSpec v`, emits exactly `[v]` and ends normally — for every value with strictly
+    increasing keys and arrays of at most 2^29 elements. -/
+theorem fromstream_tostream_eval (fuel : Nat) (hf : 60 ≤ fuel) (v : JV) (hv : v.wf = true) (hs : Rebuildable v)
+    (id : Spec.Ident) :
+    (Spec.eval fuel Tie.cfgGo .empty Tie.qFromstreamIter { v := .arr (streamSpec v), id := id }).outs.map (·.v) = [.arr [v]] ∧
+    (Spec.eval fuel Tie.cfgGo .empty Tie.qFromstreamIter { v := .arr (streamSpec v), id := id }).stop = .done := by
+  have := eval_fromstream_iter fuel hf .empty (streamSpec v) id (streamSpec_ok v hs) rfl
+  rw [fromstream_tostream v hv] at this
+  exact this
+
+/-- several documents in a row through the shipped `fromstream` -/
+theorem fromstream_tostream_docs_eval (fuel : Nat) (hf : 60 ≤ fuel) (vs : List JV) (hvs : ∀ v ∈ vs, v.wf = true)
+    (hs : ∀ v ∈ vs, Rebuildable v) (id : Spec.Ident) :
+    (Spec.eval fuel Tie.cfgGo .empty Tie.qFromstreamIter { v := .arr (streamSpecDocs vs), id := id }).outs.map (·.v) = [.arr vs] ∧
+    (Spec.eval fuel Tie.cfgGo .empty Tie.qFromstreamIter { v := .arr (streamSpecDocs vs), id := id }).stop = .done := by
+  have := eval_fromstream_iter fuel hf .empty (streamSpecDocs vs) id (streamSpecDocs_ok vs hs) rfl
+  rw [fromstream_tostream_docs vs hvs] at this
+  exact this
+
+/-- the same agreement evaluated by the kernel on `Tie.tieEvents` — which also holds event lists
+    OUTSIDE `eventOK` that happen to agree (truncated, reversed, a non-array event) -/
+theorem fromstream_shipped_examples :
     (Tie.tieEvents.all fun evs =>
       Tie.agrees (Tie.run 400 Tie.qFromstreamIter (.arr evs)) (Tie.ofFOut (fromstreamSpec evs))) = true := by
   decide +kernel
